@@ -391,6 +391,83 @@ class Recording(np.random.RandomState):
 # ----------------------------------------------------------------------------------------------
 
 
+# ----------------------------------------------------------------------------------------------
+# input forms: the same (integer-valued) data handed to the library as python ints, lists, integer ndarrays,
+# 0-d / scalar forms, F-ordered and non-contiguous arrays
+
+
+MAT_FORMS = ["float", "list", "int64", "int32", "F", "intF", "strided", "intstrided"]
+VEC_FORMS = ["float-col", "list", "int1d", "intcol", "listcol", "strided", "intstrided", "tuple"]
+SCALAR_FORMS = ["pyint", "pyfloat", "0d-int", "0d-float", "np-int64", "list1", "int1d"]
+
+
+def is_int_valued(Mx):
+    return all(v.denominator == 1 for r in Mx for v in r)
+
+
+def mat_form(Mx, kind):
+    """matrix (list of rows of integer-valued Fractions) in the requested representation"""
+    ints = [[int(v) for v in r] for r in Mx]
+    if kind == "float":
+        return np.array(ints, dtype=float)
+    if kind == "list":
+        return ints
+    if kind == "int64":
+        return np.array(ints, dtype=np.int64)
+    if kind == "int32":
+        return np.array(ints, dtype=np.int32)
+    if kind == "F":
+        return np.asfortranarray(np.array(ints, dtype=float))
+    if kind == "intF":
+        return np.asfortranarray(np.array(ints, dtype=np.int64))
+    if kind in ("strided", "intstrided"):
+        r, c = len(ints), len(ints[0])
+        big = np.full((2 * r, 3 * c), 7, dtype=(float if kind == "strided" else np.int64))
+        big[::2, ::3] = ints
+        return big[::2, ::3]
+    raise ValueError(kind)
+
+
+def vec_form(v, kind):
+    ints = [int(t) for t in v]
+    if kind == "float-col":
+        return np.array(ints, dtype=float).reshape(-1, 1)
+    if kind == "list":
+        return ints
+    if kind == "tuple":
+        return tuple(ints)
+    if kind == "int1d":
+        return np.array(ints, dtype=np.int64)
+    if kind == "intcol":
+        return np.array(ints, dtype=np.int64).reshape(-1, 1)
+    if kind == "listcol":
+        return [[t] for t in ints]
+    if kind in ("strided", "intstrided"):
+        big = np.full(3 * len(ints), 7, dtype=(float if kind == "strided" else np.int64))
+        big[::3] = ints
+        return big[::3]
+    raise ValueError(kind)
+
+
+def scalar_form(v, kind):
+    t = int(v)
+    return {"pyint": t, "pyfloat": float(t), "0d-int": np.array(t), "0d-float": np.array(float(t)),
+            "np-int64": np.int64(t), "list1": [t], "int1d": np.array([t])}[kind]
+
+
+def snapshot(obj):
+    """(type, dtype, flat contents) of a caller-owned object, to detect modification by the library"""
+    if isinstance(obj, np.ndarray):
+        return ("nd", str(obj.dtype), obj.ravel().tolist())
+    if isinstance(obj, (list, tuple)):
+        return (type(obj).__name__, None, json_like(obj))
+    return (type(obj).__name__, None, obj)
+
+
+def json_like(o):
+    return [json_like(e) for e in o] if isinstance(o, (list, tuple)) else o
+
+
 def ss_line(A, C, G, H):
     s = "A=%s C=%s G=%s" % (ratm(A), ratm(C), ratm(G))
     s += " H=%s" % (ratm(H) if H is not None else "none")
@@ -417,20 +494,32 @@ def run(ctx):
                                 None if mu0 is None else to_np(col(mu0)), None if S0 is None else to_np(S0))
 
     # ---- Kalman: finite observation records --------------------------------------------------------
-    def kalman_case(A, C, G, H, xh, S0, ys, mode, expect_singular=False):
+    def kalman_case(A, C, G, H, xh, S0, ys, mode, expect_singular=False, objs=None, tag=None):
+        """objs = dict(kn=<existing Kalman or None>, ss=<LinearStateSpace>, x=<x_hat object>, S=<Sigma object>,
+        ys=[observation objects]): the same data in another representation; with kn given, set_state() is used"""
         n, k = len(A), len(G)
         if mode == "p2f":
             ys = ys[:1]
-        kn = Kalman(mk_ss(A, C, G, H), to_np(col(xh)), to_np(S0))
+        if objs is None:
+            kn = Kalman(mk_ss(A, C, G, H), to_np(col(xh)), to_np(S0))
+            yobjs = [to_np(col(y)) for y in ys]
+        else:
+            if objs.get("kn") is not None:
+                kn = objs["kn"]
+                kn.set_state(objs["x"], objs["S"])
+            else:
+                kn = Kalman(objs["ss"], objs["x"], objs["S"])
+            objs["kn_out"] = kn
+            yobjs = objs["ys"]
         states, status = [], "ok"
         try:
             if mode == "update":
-                for y in ys:
-                    kn.update(to_np(col(y)))
-                    states.append((np.array(kn.x_hat), np.array(kn.Sigma)))
+                for y in yobjs:
+                    kn.update(y)
+                    states.append((np.array(kn.x_hat, dtype=float), np.array(kn.Sigma, dtype=float)))
             elif mode == "p2f":
-                kn.prior_to_filtered(to_np(col(ys[0])))
-                states.append((np.array(kn.x_hat), np.array(kn.Sigma)))
+                kn.prior_to_filtered(yobjs[0])
+                states.append((np.array(kn.x_hat, dtype=float), np.array(kn.Sigma, dtype=float)))
             else:
                 kn.filtered_to_forecast()
                 states.append((np.array(kn.x_hat), np.array(kn.Sigma)))
@@ -439,8 +528,8 @@ def run(ctx):
             ctx.count("kalman:LinAlgError")
         impl = status + " " + " ".join("x%d=%s S%d=%s" % (t, wire_f(x), t, wire_f(S)) for t, (x, S) in enumerate(states))
         line = "C12 kalman %s x=%s S=%s ys=%s mode=%s" % (ss_line(A, C, G, H), rats(xh), ratm(S0), ratm(ys), mode)
-        cases.append(Case(line, impl, nontrivial=(n >= 2 or len(ys) >= 2), cmp=env_cmp(ENV_K, errs_k), tag="kalman-" + mode))
-        replay = {"op": "kalman", "mode": mode, "A": ratm(A), "C": ratm(C), "G": ratm(G), "H": ratm(H),
+        cases.append(Case(line, impl, nontrivial=(n >= 2 or len(ys) >= 2), cmp=env_cmp(ENV_K, errs_k), tag=tag or ("kalman-" + mode)))
+        replay = {"op": "kalman", "mode": mode, "forms": (objs or {}).get("forms"), "A": ratm(A), "C": ratm(C), "G": ratm(G), "H": ratm(H),
                   "x_hat": rats(xh), "Sigma": ratm(S0), "ys": ratm(ys)}
         # -- spec: shapes, symmetry, PSD, batch conditioning
         for t, (x, S) in enumerate(states):
